@@ -303,7 +303,7 @@ Theorem C13_decoration_stages :
   (forall options iflags avx has_mem op0m ops, test iflags IF_Evex = true ->
      (test options OPT_ZMask = true -> test avx AF_Z = true /\ op0m = false) ->
      (test options (N.lor OPT_SAE OPT_ER) = true ->
-        has_mem = false /\ (test options OPT_ER = true -> test avx AF_ER = true) /\ (test options OPT_ER = false -> test avx AF_SAE = true) /\
+        has_mem = false /\ (test options OPT_ER = true -> test avx AF_ER = true) /\ (test options OPT_ER = false -> test avx AF_SAE = true /\ test avx AF_ER = false) /\
         (test avx (N.lor AF_B16 (N.lor AF_B32 AF_B64)) = true -> is_zmm_or_m512 (nth 0 ops ONone) || is_zmm_or_m512 (nth 1 ops ONone) = true)) ->
      avx_stage options iflags avx has_mem op0m ops = E_Ok).
 Proof. exact (conj lock_stage_lock (conj rep_stage_rep (conj extra_stage_k avx_stage_ok))). Qed.
@@ -334,3 +334,19 @@ Theorem C13_api_methods_name_their_ids_x86 : forall m id, In (m, id) x86_api_met
   existsb (str_eqb m) x86_api_exceptions = true \/ x86_string_to_inst_id x86_names x86_aliases m = id.
 Proof. exact (api_methods_x86 x86_names x86_aliases x86_api_methods x86_api_exceptions x86_api_methods_ok). Qed.
 Print Assumptions C13_api_methods_name_their_ids_x86.
+
+(* ---- decorated database rows: for every row with ONE decoration its database form grants (lock, rep, repne, {k}, {k}{z}, {er}, {sae}, each also with {k}, {evex};
+   9 494 (row, decoration) pairs; packed {er}/{sae} below 512 bits and the known-absent AVX10.2 decorations are not generated) and every mode the row lists, the
+   instruction word carrying the decoration validates on the representative operands - through the row-level theorem C13_db_row_validates: all its stage
+   premises are derived by evaluation of the stage functions *)
+From VerifGen Require Import X86DbDecor.
+Theorem C13_db_rows_decorated_representatives_validate : forall dr, In dr x86_db_rows_decorated ->
+  forall zq x64, test (dr_mode (fst (fst (fst dr)))) (mode_bit x64) = true ->
+  validate x86_vtables zq x64 false
+    {| vi_id := dr_inst (fst (fst (fst dr))); vi_options := snd (fst (fst dr)); vi_extra_type := snd (fst dr); vi_extra_id := snd dr |}
+    (rep_ops x64 (fst (fst (fst dr)))) = E_Ok.
+Proof.
+  exact (fun dr Hin zq => rep_decor_validates_both x86_vtables zq dr x86_sigs_wf
+           (forallb_In _ (rep_decor_premises_both x86_vtables) x86_db_rows_decorated x86_rep_decor_premises dr Hin)).
+Qed.
+Print Assumptions C13_db_rows_decorated_representatives_validate.
